@@ -87,7 +87,7 @@ def main(argv=None):
         if ncases is not None:
             cases = cases[:ncases]
     timeout = mod.TIMEOUT[tier]
-    deadline = mod.DEADLINE[tier]
+    deadline = float(os.environ.get("VERIF_DEADLINE", mod.DEADLINE[tier]))  # override for development sweeps only
     env_extra = getattr(mod, "WORKER_ENV", None)
     results = harness.run_cases(check_id, tier, cases, timeout, nworkers=nworkers, deadline_s=deadline,
                                 env_extra=env_extra, progress=bool(os.environ.get("VERIF_PROGRESS")))
